@@ -4,24 +4,63 @@ import json, subprocess, sys
 
 CLAIMED = {
  # id: (technique, level text, level note, design ref)
- "C01": ("custom SSA path/dominance analysis over all bucket-chain walkers, key callbacks and key-counter stores (go/ssa)",
-         "Structural necessary conditions of map semantics, decided for every path of the index code (hence for every key set and hash layout): no chain walk ends early, matches need a full key comparison, the key counter moves exactly with insertions/removals, splits redistribute with updated addressing. Does not decide equality with a reference map.",
-         "go/types + go/ssa faithful; anchors typed and named (fail closed); behaviour of a whole history is not decided", "5 C01"),
+ "C01": ("SSA path/edge-removal reachability over all bucket-chain walkers, key callbacks, key-counter stores and split()",
+         "Structural necessary conditions of map semantics, decided for every path of the index code (hence for every key set and hash layout): no chain walk ends early, matches need a full key comparison, the key counter moves exactly with insertions/removals, splits redistribute with updated addressing, walks start at bucketIndex(hash). Does not decide equality with a reference map.",
+         "go/types + go/ssa faithful; anchors typed and named (fail closed); behaviour of a whole history is not decided"),
+ "C02": ("SSA def-use symmetry check of persisted metadata, abstract file-name evaluation, interprocedural Close/Open order analysis, dropped-error analysis",
+         "Structural necessary conditions of clean restart: writer/reader symmetry of every persisted field and file name, every mutable index field persisted, Close persists everything before releasing the lock, no recovery without a pre-existing lock file, no dropped error on a success path, mapped files opened large are mapped whole. Does not decide equality of reopened contents for all histories.",
+         "go/ssa faithful; gob encodes exported fields by name"),
+ "C03": ("interprocedural (call-string cloned) path analysis of Open/Close/compact/recover; SSA dominance checks for write-ahead and single-write",
+         "Structural crash protocol for all paths: lock file brackets the session, stale index moved aside before opening on the recovery branch, replay oldest-first with monotone sequence ids, one WriteAt per record, log before index, source unlinked only after a clean end of segment, repoint only after the copy, delete records dropped only with all older segments. Does not decide the contents recovered from each crash image.",
+         "process-crash model as written; directory operations atomic; go/ssa faithful"),
  "C04": ("SSA path analysis: every length-changing call on the fs.File embedded in a pogreb.file must be followed by an assignment of file.size on its success paths; interprocedural Close-order analysis for the lock file",
-         "Structural necessary conditions of repeated-crash safety: the in-memory append position can never diverge from the file length (the mechanism that lost acknowledged writes after a torn-tail recovery), and only a completed Close removes the lock file. Does not decide contents along chains of crash images.",
-         "go/ssa faithful; accepted exceptions (in-place bucket rewrite, function-local gob writer) are a reviewed table", "5 C04"),
+         "Structural necessary conditions of repeated-crash safety: the in-memory append position can never diverge from the file length, only a completed Close removes the lock file. Does not decide contents along chains of crash images.",
+         "go/ssa faithful; accepted exceptions (in-place bucket rewrite, function-local gob writer) are a reviewed table"),
+ "C05": ("SSA dominance/def-use analysis of compact/promoteRecord/swapSegment/pickForCompaction plus path-sensitive lockset analysis",
+         "Invariants that make per-record compaction safe under interleaved writers: seal first (under the exclusive lock), never append to / install a sealed segment, liveness on (hash, segment, offset), repoint to exactly the copy after a successful copy, source removed only after a clean end of segment, older segments first, all shared accesses under DB.mu. Does not decide equality of contents before/during/after compaction for all schedules.",
+         "go/ssa faithful; pickForCompaction's delete branch is recognised by shape (fail closed)"),
  "C06": ("call-string-cloned interprocedural must-pass-through analysis (Sync before success return / before marking a segment full / between record copy and unlink)",
          "Structural necessary conditions of durability of synced writes under the stated power-loss model, for all paths: Sync reaches fsync of the current segment, a segment is sealed only after a successful Sync of it, compaction syncs the copies before unlinking the source. Does not decide the contents of power-loss images.",
-         "power-loss model as written in the property; fsync honours its contract; go/ssa faithful", "5 C06"),
+         "power-loss model as written in the property; fsync honours its contract; go/ssa faithful"),
+ "C07": ("path-sensitive lockset analysis on the call-string-cloned interprocedural graph of every API entry",
+         "Only the critical-section structure linearizability needs: every access to guarded state and every I/O on shared files holds DB.mu in the right mode, each operation is one critical section, locks are balanced on every path, thread-safe file readers are pure. Linearizability of histories itself is not decided.",
+         "guarded-state table confirmed by reading (DESIGN.md 2.2); field-based lock identity (one DB)"),
+ "C08": ("abstract interpretation of slice positions (linear forms) in encoder/decoder compared with the documented record format; SSA control-dependence on the checksum; error-set inclusion; phi-sensitive path search after truncation",
+         "The decoder used by recovery frames and validates records exactly as the encoder writes them and as format v2 documents; records surface and the offset advances only behind the checksum equality; truncation at that offset; every tail error is one recovery recognises; recovery continues with the next segment. Does not decide replay equality on all byte strings nor CRC strength.",
+         "contracts of io.ReadFull and crc32.ChecksumIEEE; go/ssa faithful"),
  "C09": ("call-string-cloned interprocedural path analysis of DB.Close with access-path receiver identity (Sync-before-Close per file, lock release last)",
          "Structural necessary conditions of 'Close is a durable checkpoint': on every success path of Close each written file is synced before it is closed, with no write in between, all steps precede the lock release and nothing follows it. Does not decide that every power-loss image reopens to the closed contents.",
-         "power-loss model as written; receiver identity by access path through the call string (no aliasing of file handles in this code base)", "5 C09"),
+         "power-loss model as written; receiver identity by access path through the call string"),
+ "C10": ("path-sensitive lockset analysis (guarded accesses, balance, lock-order graph, waits under lock), goroutine lifecycle dominance checks, value-flow check that mapped memory is only read under the lock",
+         "The lock discipline race- and deadlock-freedom need, for all paths including error paths; lifecycle of the only goroutine; Slice memory read only under DB.mu. Known finding: Backup/FileSize race on fs.Mem. Absence of panics/faults in general and progress are not decided.",
+         "guarded-state table; sync.Mutex semantics; findings listed in known_findings.txt"),
+ "C11": ("SSA edge-removal reachability (chain walk), def-use checks of the scan cursor and queued items, lockset analysis of the chain drain",
+         "Every pair returned is a copy of what readKeyValue returned for a visited slot; a chain is drained in one shared section; buckets are visited by +1 after a successful fetch with the bound re-read each iteration; splits only append. Exactly-once / at-least-once for all states and interleavings are not decided.",
+         "go/ssa faithful"),
+ "C12": ("lockset analysis of Backup, SSA control-dependence of the bounded/unbounded copy on the captured-size map, interprocedural must-pass for the lock file, access-path check that the source is read-only",
+         "Snapshot bound captured under the lock for not-full segments, whole-file copy only for segments sealed at capture, maintenanceMu held for the whole backup including the capture, lock file created in the backup, source only opened read-only. Point-in-time equality for all schedules is not decided.",
+         "go/ssa faithful"),
+ "C13": ("SSA control-dependence and ordering analysis of the unix lock acquisition/release; interprocedural Open/Close order analysis",
+         "Forbids the known path/inode time-of-check windows: success only after flock and a post-flock SameFile re-validation, Unlock unlinks before closing, Open touches nothing without the lock and recovers iff the lock file pre-existed, only Close unlocks. Does not prove mutual exclusion for all interleavings; windows/plan9 not decided; 'existed' flag advisory.",
+         "flock and os.SameFile semantics of the host OS"),
+ "C14": ("whole-package field-based value-flow (taint) analysis with VTA-resolved callbacks, combined with lockset analysis",
+         "Within the stated flow model: Slice memory never reaches an API result or any struct field, caller slices are never retained, Slice memory is only read under DB.mu. The claim is about the flow model (no unsafe/reflection in package pogreb), not about sampled histories.",
+         "value-flow model assumptions listed in the evidence"),
  "C15": ("abstract evaluation of file-name expressions through the call string (name families), SSA path analysis of datalog.curSeg uses and of removeSegment/compact ordering",
-         "Structural necessary conditions: everything removed is something created, every per-segment file family is removed with its segment, the current segment is never used for I/O after compaction sealed and removed it, segments are counted as compacted only after removal. Does not decide boundedness of directory size, descriptors or mappings.",
-         "go/ssa faithful; name abstraction covers the constructors used in this package (constants, concatenation, segmentName, segment.name, directory entries)", "5 C15"),
- "C19": ("forward value-flow (taint) analysis from decoded length fields to allocation sizes with a polarity-checked bound guard",
-         "Decides for every function reachable from recovery/segment iteration that no allocation is sized by a length decoded from file bytes unless control dependent on 'decoded <= bound not derived from file contents'. Does not decide total work/time.",
-         "taint sources: encoding/binary UintN decoders; sinks: make, Buffer.Grow, io.CopyN; go/ssa faithful", "5 C19"),
+         "Everything removed is something created, every per-segment file family is removed with its segment, the current segment is never used for I/O after compaction sealed and removed it, segments are counted as compacted only after removal. Boundedness of directory size, descriptors or mappings is not decided.",
+         "name abstraction covers the constructors used in this package"),
+ "C16": ("enumeration of every narrowing/sign-changing conversion and narrow-type arithmetic against a reviewed table; constant relations by go/constant; SSA control-dependence of every call of Put on both limit checks",
+         "No length is narrowed into a 16/31/32-bit field without a stated bound, the public limits agree with the field widths, an over-long Put is rejected before any effect, look-ups compare the full key. Byte-exact round trip of all sizes is not decided.",
+         "reviewed conversion table keyed by function and source shape (fails closed on new sites)"),
+ "C17": ("sibling cross-check of the fs.File implementations by SSA analysis (size bookkeeping, Slice guards, mapping length, read-only mapping, reader purity) plus value-flow check that package pogreb never keeps Slice memory",
+         "Sibling agreement on the points the database relies on. Equality of results and segment bytes across file systems for all programs is a relational run-time property and is not decided.",
+         "go/ssa faithful; unix build of the mapping code (windows variant loaded in the thorough tier)"),
+ "C18": ("layout extraction by abstract interpretation of slice positions in the marshal/unmarshal functions, constants by go/constant, struct field tables by go/types, compared with frozen tables of format v2",
+         "Writer- and reader-side tables of the current code equal the documented/pinned format: header, bucket, record, file names, gob field sets, hash constants. Opening a golden corpus is dynamic and out of family.",
+         "frozen tables taken from the pinned tree and docs/design.md"),
+ "C19": ("forward value-flow (taint) analysis from decoded length fields to allocation sizes with a polarity-checked, wrap-free bound guard",
+         "For every function reachable from recovery/segment iteration no allocation is sized by a length decoded from file bytes unless control dependent on 'decoded <= bound not derived from file contents'; every tail error is recognised by recovery (shared with C08). Total work/time is not decided.",
+         "taint sources: encoding/binary UintN decoders; sinks: make, Buffer.Grow, io.CopyN"),
 }
 
 NOT_APPLICABLE = {}
@@ -33,7 +72,7 @@ def main():
     for p in props:
         i = p['id']
         if i in CLAIMED:
-            tech, text, note, ref = CLAIMED[i]
+            tech, text, note = CLAIMED[i]; ref = "5 " + i
             checks.append({
                 "property_id": i,
                 "quick_cmd": f"./run.sh {i} quick",
